@@ -1,6 +1,6 @@
 (* C10 — register streaming: ordered, exactly-once, abort on error, stop on cancellation. *)
 From GV Require Import Base.Bytes Vedirect.Frame Vedirect.Port Vedirect.Driver.
-From GV Require Import Tables.ObsTypes Gen.Obs Api.Api Api.ApiFacts.
+From GV Require Import Tables.ObsTypes Gen.Obs Api.Api Api.ApiFacts Api.Maps Api.MapsFacts.
 
 (* For every register sequence, cancellation point, accumulator and driver state (any
    device script, any fault schedule): the values delivered are, in order and each once, a
@@ -44,3 +44,19 @@ Theorem C10_io_only_for_read_registers : forall c idle r s,
   exists k, written (pt (snd (read_register c idle r s))) = written (pt s) ++ repeat (tx_frame 7 (r_addr r mod 65536)) k.
 Proof. exact read_register_written. Qed.
 Print Assumptions C10_io_only_for_read_registers.
+
+(* The map-returning variants (ReadRegisterList / ReadAllRegisters): same end and same
+   driver state as the streaming run with all four handlers; in each of the four maps a
+   name is a key iff a value of that kind was delivered under it before the run ended, the
+   value under it is the last one so delivered, and with pairwise distinct names (every list
+   of the product table) the map is exactly the delivered sequence of that kind. *)
+Theorem C10_maps :
+  forall c rl ca s,
+  let '(e, m, s') := read_register_list c rl ca s in
+  let '(e2, d, s2) := stream_register_list c all_handlers rl ca s in
+  e = e2 /\ s' = s2 /\
+  (forall k n, m_get n (rv_map k m) = option_map snd (find (named n) (rev (deliv_kind k d)))) /\
+  (forall k n, m_get n (rv_map k m) <> None <-> exists x, In x d /\ of_kind k x = true /\ r_name (fst x) = n) /\
+  (forall k, NoDup (map (fun x => r_name (fst x)) (deliv_kind k d)) -> rv_map k m = map entry (deliv_kind k d)).
+Proof. exact read_register_list_spec. Qed.
+Print Assumptions C10_maps.
